@@ -397,6 +397,7 @@ func init() {
 	add("C19", "P-IDX-RPC")
 	registerRule(&RuleDef{ID: "P-POLL", Min: 1, Doc: "every polling loop (sleep and retry) on the transact path has an exit that depends on elapsed time only, reachable whatever optional members the operation carries", Run: rulePPOLL})
 	add("C19", "P-POLL")
+	add("C02", "X5")
 	add("C17", "P-POLL")
 	registerRule(&RuleDef{ID: "S-KEEPKIND", Min: 0, Doc: "a projection helper of the notification filters (*ovsdb.Row to *ovsdb.Row) returns nil only for a nil row, so the kind of a row update survives the projection", Run: ruleSKEEPKIND})
 	add("C10", "S-KEEPKIND")
